@@ -91,9 +91,11 @@ class C18(Prop):
         for i in range(N):
             n = rng.randint(1, 4); m = rng.randint(1, 7)
             P = [rng.sample(range(1, m + 1), m) for _ in range(n)]
-            kind = ["consistent", "tied", "inverted", "near"][i % 4]
+            kind = ["consistent", "tied", "inverted", "near", "coarse"][i % 5]
             V = []
             for row in P:
+                if kind == "coarse":       # a few distinct values, unrelated to the ranking: harmless ties and clear inversions in one row
+                    V.append([rng.choice([0.0, 0.25, 0.5]) for _ in range(m)]); continue
                 vals = sorted([rng.random() for _ in range(m)], reverse=True)
                 if kind == "tied": vals = sorted([rng.choice([0.1, 0.2, 0.2, 0.5]) for _ in range(m)], reverse=True)
                 v = [vals[r - 1] for r in row]
